@@ -179,6 +179,16 @@ class LineFileAdapter:
             w["conf"] = [op["lines"], op["term"], op["idx"], op["src"]]
             w["src_bytes"] = data
             return []
+        if n == "reopen":
+            w["reopens"] = w.get("reopens", 0) + 1
+            if w["reopens"] % 2:
+                f.close()
+                f.open()
+            else:
+                f.__exit__(None, None, None)
+                if f.__enter__() is not f:
+                    raise Unexpected("__enter__ did not return the file object")
+            return []
         if n == "len":
             return [len(f)]
         if n == "get":
@@ -191,7 +201,9 @@ class LineFileAdapter:
             return [self.sym(w, self.unwrap(x)) for x in f[a:b:c]]
         if n == "many":
             sel = list(op["is"])
-            return [self.sym(w, self.unwrap(x)) for x in f[sel if len(sel) % 2 else tuple(sel)]]
+            w["manys"] = w.get("manys", 0) + 1
+            kind = w["manys"] % 3          # a list, a tuple, or a one-shot iterator ("index iterables select like a list")
+            return [self.sym(w, self.unwrap(x)) for x in f[sel if kind == 0 else (tuple(sel) if kind == 1 else iter(sel))]]
         if n == "list":
             return [self.sym(w, self.unwrap(x)) for x in f]
         if n == "iter_new":
